@@ -295,10 +295,13 @@ CHECKS['C17'] = dict(
          "ec_decode_bin and the committed intervals must tile [0,32768); ec_laplace_encode must commit the decoder's interval of the value "
          "it reports for every value in range +-6; real-coder round trips. icdf: every table passed to ec_*_icdf(16) during encode/decode/"
          "hostile-decode workloads, and every object of the binary named *icdf* (from its own symbol table), split at zeros. This is "
-         "exhaustive over the enumerated finite spaces (evidence counters), sampled where V > vmax.",
+         "exhaustive over the enumerated finite spaces (evidence counters), sampled where V > vmax. symlock: one generated stream per case (starved MDCT "
+         "frames of 2..28 bytes, forced SILK / hybrid / MDCT, free streams with random setting changes; LBRR, DTX, stereo with mid-only frames), every packet "
+         "encoded and decoded with all value-writing / value-reading functions of both layers interposed; per kind the decoder's values must be a "
+         "subsequence of the encoder's (the encoder may code a value several times: rate loop, theta RDO, prefill and redundancy frames).",
     assumptions=COMMON_ASSUME + ["the PVQ index functions are static: the working tree's celt/cwrs.c is compiled into the harness unit (same source, same flags)",
                                  "the cache may over-estimate by at most 1/8 bit (conservative log2), never under-estimate"],
-    evals_counter=['pvq_indices_checked', 'laplace_points_checked', 'laplace_encodes_checked', 'cache_entries_checked', 'icdf_live_table_uses'],
+    evals_counter=['pvq_indices_checked', 'laplace_points_checked', 'laplace_encodes_checked', 'cache_entries_checked', 'icdf_live_table_uses', 'symlock_values_matched'],
     runs=[
         dict(h='h_c17.c', mode='pvq', flavour='asan', n=105, wraps=C17_WRAPS, args={'quick': ['vmax=300000', 'samples=3000'], 'thorough': ['vmax=16777216', 'samples=200000']}),
         dict(h='h_c17.c', mode='cache', flavour='asan', n=1, shards=1, wraps=C17_WRAPS),
@@ -310,7 +313,7 @@ CHECKS['C17'] = dict(
         dict(h='h_c17.c', mode='symlock', flavour='asan-fixed', n={'quick': 800, 'thorough': 20000}, wraps=C17_WRAPS),
     ],
     min_nontrivial={'quick': 300, 'thorough': 300},
-    min_counters={'quick': {'pvq_NK_pairs': 600, 'pvq_pairs_exhaustive': 300, 'laplace_points_checked': 300 * 32768, 'icdf_live_tables_distinct': 60, 'icdf_static_tables_checked': 30, 'cache_entries_checked': 1000},
+    min_counters={'quick': {'pvq_NK_pairs': 600, 'pvq_pairs_exhaustive': 300, 'laplace_points_checked': 300 * 32768, 'icdf_live_tables_distinct': 60, 'icdf_static_tables_checked': 30, 'cache_entries_checked': 1000, 'symlock_values_matched': 1000000, 'symlock_silk-indices_values_matched': 20000, 'symlock_coarse-energy_values_matched': 30000},
                   'thorough': {'pvq_NK_pairs': 600}},
 )
 
@@ -452,7 +455,7 @@ CHECKS['C20'] = dict(
         dict(h='h_c20.c', mode='sched', flavour='prod-fixed', ref='fixed', n={'quick': 800, 'thorough': 20000}),
     ],
     min_nontrivial={'quick': 500, 'thorough': 1000},
-    min_counters={'quick': {'packets': 300000, 'dtx_packets': 30000, 'dtx_starts_checked': 500, 'refresh_packets': 1500, 'resumptions_checked': 3000},
+    min_counters={'quick': {'packets': 300000, 'dtx_packets': 30000, 'dtx_starts_checked': 500, 'refresh_packets': 1500, 'resumptions_checked': 3000, 'resumed_blocks_compared_with_frozen_build': 300000},
                   'thorough': {'dtx_packets': 500000}},
 )
 
@@ -466,7 +469,7 @@ CHECKS['C09'] = dict(
          "the requested duration, finite samples, final range of received packets, level bounds against the last 500 ms decoded, decay after "
          "1 s, FEC vs concealment on a cloned decoder (error energy against the loss-free twin where LBRR is present, exact equality where it "
          "is not), the sub-frame gains of every frame rebuilt from LBRR data against the gains the encoder quantised that LBRR frame with "
-         "(hooks H3 and H2), and convergence to the loss-free twin 1 s after the last loss. Exhaustive over the 2^k patterns of each window.",
+         "(hooks H3 and H2), and convergence to the loss-free twin 1 s after the last loss. Later additions: the frozen build's decoder receives exactly the same calls on every second float-API pattern and every 5 ms block of received audio after a loss is compared with the loss-free twin for both (tree at most 12 dB further away); half of the streams are gated (-48 dB from one packet to the next) and half of the windows are placed on the end of a loud segment. Exhaustive over the 2^k patterns of each window.",
     assumptions=COMMON_ASSUME + ["thresholds are the committed constants of calib/c09.json (measured on the pinned tree with margin): kappa, peak kappa, delta, rho, recovery SNR",
                                  "the stimulus has a quiet background (speech-like bursts over -60 dB noise), as the decay clause requires"],
     evals_counter='patterns',
@@ -480,7 +483,7 @@ CHECKS['C09'] = dict(
         dict(h='h_c09.c', mode='multiburst', flavour='prod-fixed', ref='fixed', n={'quick': 48, 'thorough': 800}),
     ],
     min_nontrivial={'quick': 40, 'thorough': 60},
-    min_counters={'quick': {'patterns': 60000, 'plc_calls': 500000, 'fec_calls': 50000, 'fec_lbrr_events': 10000, 'lbrr_subframe_gains_compared': 100000, 'recoveries_checked': 50000, 'bursts_over_1s': 600, 'multiburst_patterns': 100},
+    min_counters={'quick': {'patterns': 60000, 'plc_calls': 500000, 'fec_calls': 50000, 'fec_lbrr_events': 10000, 'lbrr_subframe_gains_compared': 100000, 'recoveries_checked': 50000, 'recovery_blocks_compared_with_frozen_build': 1000000, 'windows_on_the_end_of_a_loud_segment': 30, 'bursts_over_1s': 600, 'multiburst_patterns': 100},
                   'thorough': {'patterns': 2000000}},
 )
 
@@ -493,7 +496,7 @@ CHECKS['C03'] = dict(
          "run per stream: tree decoder and frozen decoder in lock-step (count, final range exact), then the RFC metric of the tree's 16-bit "
          "output against the frozen decoder at the same rate/channels (verdict; for a fixed-point tree the frozen source built fixed-point), and against its 48 kHz stereo output (the RFC procedure, reported only). "
          "metric: the metric port is cross-checked against the RFC tool (compiled from the frozen source) on clean and degraded signals. "
-         "Distinct = (TOC byte, decoder rate, channels, mode transition).",
+         "Distinct = (TOC byte, decoder rate, channels, mode transition). Later additions: 2.5 ms block comparison with the reference decoder on the same packets; one stream in seven starves the layers (forced-stereo hybrid / MDCT at 10..26 kb/s).",
     assumptions=COMMON_ASSUME + ["'reference decoder/encoder' = the frozen source snapshot of the pinned commit (/verif/ref), built with clang as portable C; deviations from RFC 6716 already present in that commit are invisible",
                                  "oracles/rfc_compare.h is a faithful port of opus_compare.c (cross-checked against the tool in mode 'metric')",
                                  "PCM reference for the fixed-point tree builds is the frozen snapshot built fixed-point (the reference implementation's own fixed-point configuration); final ranges are always compared with the float reference",
@@ -524,7 +527,7 @@ CHECKS['C04'] = dict(
          "frame size, rate, channels, identity stimulus, sample formats, signal, application).",
     assumptions=COMMON_ASSUME + ["fidelity bounds are relative to the frozen build of the same arithmetic on the identical input (calib/c04.json margins); perceptual quality is out of scope",
                                  "the delay estimator is applied to noise-like / speech-like stimuli where the frozen build itself reaches 12 dB SNR and its own estimate is within tolerance"],
-    evals_counter=['roundtrips', 'ms_roundtrips'],
+    evals_counter=['roundtrips', 'ms_roundtrips', 'switch_roundtrips'],
     runs=[
         dict(h='h_c04.c', mode='rt', flavour='prod', ref='both', n={'quick': 2400, 'thorough': 40000}),
         dict(h='h_c04.c', mode='rt', flavour='prod-fixed', ref='both', n={'quick': 1200, 'thorough': 20000}),
@@ -534,7 +537,7 @@ CHECKS['C04'] = dict(
         dict(h='h_c04.c', mode='switch', flavour='prod-fixed', ref='both', n={'quick': 480, 'thorough': 10000}),
     ],
     min_nontrivial={'quick': 400, 'thorough': 1000},
-    min_counters={'quick': {'roundtrips': 3500, 'delays_checked': 1200, 'bands_checked': 40000, 'ms_channels_checked': 4000}, 'thorough': {'roundtrips': 15000}},
+    min_counters={'quick': {'roundtrips': 3500, 'delays_checked': 1200, 'bands_checked': 40000, 'ms_channels_checked': 4000, 'switch_blocks_checked': 300000, 'switch_lookaheads_checked': 1500, 'switch_application_changed_before_first_frame': 200}, 'thorough': {'roundtrips': 15000}},
 )
 
 # later additions to the workloads, stated once in manifest_meta._ADD: appended to the rule text recorded in the evidence
